@@ -73,6 +73,20 @@ func (in *c20Inner) ServeHTTP(w http.ResponseWriter, req *http.Request) {
 		return
 	}
 	s := in.script
+	if s.Kind == "hijackfb" {
+		// try to take over the connection; when that is refused answer normally (426), as upgrade handlers do
+		if hj, ok := w.(http.Hijacker); ok {
+			if conn, _, err := hj.Hijack(); err == nil {
+				_, _ = conn.Write([]byte("HTTP/1.1 200 OK\r\nConnection: close\r\nContent-Length: 6\r\nX-Hijacked: 1\r\n\r\nhijack"))
+				_ = conn.Close()
+				return
+			}
+		}
+		w.Header().Set("X-Fallback", "1")
+		w.WriteHeader(http.StatusUpgradeRequired)
+		_, _ = w.Write([]byte("upgrade required"))
+		return
+	}
 	if s.Kind == "hijack" {
 		hj, ok := w.(http.Hijacker)
 		if !ok {
@@ -138,7 +152,11 @@ func c20Build(specs []c20MW, inner http.Handler) (http.Handler, error) {
 		case "stream":
 			h, err = stream.New(h)
 		case "trace":
-			h, err = trace.New(h, io.Discard, trace.RequestHeaders("X-Req-Id"), trace.ResponseHeaders("X-App"))
+			var sink io.Writer = io.Discard
+			if sp.Sticky { // (flag reused) the trace sink is broken: every write fails; the tracer must stay transparent
+				sink = brokenWriter{}
+			}
+			h, err = trace.New(h, sink, trace.RequestHeaders("X-Req-Id"), trace.ResponseHeaders("X-App"))
 		case "connlimit":
 			max := int64(2) // requests are sequential: the limit is never reached
 			if sp.Intervene {
@@ -247,11 +265,21 @@ func c20Stacks(c *Ctx) {
 				script.Kind = "hijack"
 			}
 		}
+		recorderMode := false
+		if mode == "transparent" && script.Kind == "plain" && r.IntN(5) == 0 {
+			recorderMode = true
+			if script.Status == 204 || script.Status == 304 {
+				script.Status = 200 // a recorder keeps body bytes that a real server would refuse for these statuses
+			}
+			if r.IntN(2) == 0 {
+				script.Kind = "hijackfb"
+			}
+		}
 		for n := r.IntN(6); n > 0; n-- {
 			script.Headers = append(script.Headers, [2]string{pick(r, []string{"X-App", "X-Multi", "Cache-Control", "Etag", "Content-Language", "Set-Cookie"}), randToken(r, 1+r.IntN(10))})
 		}
-		if script.Kind == "plain" && script.Status != 0 && r.IntN(6) == 0 {
-			script.Early = true
+		if script.Kind == "plain" && script.Status != 0 && r.IntN(6) == 0 && !recorderMode {
+			script.Early = true // (a ResponseRecorder keeps the first status it is given, so no 1xx in recorder mode)
 		}
 		explicitCT := r.IntN(3) != 0
 		if explicitCT {
@@ -282,7 +310,7 @@ func c20Stacks(c *Ctx) {
 			c.Violation("build", "building the stack failed: "+err.Error(), desc)
 			return
 		}
-		srv := httptest.NewServer(h)
+		srv := newTestServer(h)
 		defer srv.Close()
 		do := func(id, scriptName string, body []byte, onFirst func()) (*http.Response, []byte, error) {
 			var rd io.Reader
@@ -375,9 +403,63 @@ func c20Stacks(c *Ctx) {
 			c.Count("stacks_nontrivial", 1)
 			return
 		}
+		if recorderMode {
+			// driven through an httptest.ResponseRecorder (a writer that cannot be hijacked and has no socket behind it)
+			mk := func(h http.Handler) *httptest.ResponseRecorder {
+				req := httptest.NewRequest("GET", "http://front.test/s", nil)
+				req.Header.Set("X-Req-Id", "test")
+				req.Header.Set("X-Src", "client-1")
+				rec := httptest.NewRecorder()
+				h.ServeHTTP(rec, req)
+				return rec
+			}
+			got := mk(h)
+			bare := &c20Inner{invoked: map[string]int{}, script: script, gotFirst: make(chan struct{}, 1), hold: make(chan struct{}), entered: make(chan struct{}, 1)}
+			want := mk(bare)
+			inner.mu.Lock()
+			n := inner.invoked["test"]
+			inner.mu.Unlock()
+			if n != 1 {
+				c.Violation("transparent/invocations", sfmt("recorder: the innermost handler was invoked %d times for one request", n), desc)
+				return
+			}
+			if got.Code != want.Code || !bytes.Equal(got.Body.Bytes(), want.Body.Bytes()) {
+				key := "transparent/status"
+				if got.Code == want.Code {
+					key = "transparent/body"
+				}
+				if script.Kind == "hijackfb" {
+					key = "hijack/fallback-response-lost"
+				}
+				c.Violation(key, sfmt("recorder: through the stack status %d with %d body bytes, the bare handler gives %d with %d", got.Code, got.Body.Len(), want.Code, want.Body.Len()), desc)
+				return
+			}
+			gh, bh := got.Header().Clone(), want.Header().Clone()
+			gh.Del("Set-Cookie")
+			bh.Del("Set-Cookie")
+			if !explicitCT || script.Kind == "hijackfb" {
+				gh.Del("Content-Type")
+				bh.Del("Content-Type")
+			}
+			for k := range framingHeaders {
+				gh.Del(k)
+				bh.Del(k)
+			}
+			if ok, why := hdrEqual(gh, bh); !ok {
+				c.Violation("transparent/headers", "recorder: "+why, desc)
+				return
+			}
+			c.Count("recorder_mode_cases", 1)
+			if script.Kind == "hijackfb" {
+				c.Count("hijack_fallback_checked", 1)
+			}
+			c.Nontrivial(sfmt("rec|%v|%v", specs, script))
+			c.Count("stacks_nontrivial", 1)
+			return
+		}
 		// transparent: compare with the bare handler
 		bareInner := &c20Inner{invoked: map[string]int{}, script: script, gotFirst: make(chan struct{}, 1), hold: make(chan struct{}), entered: make(chan struct{}, 1)}
-		bare := httptest.NewServer(bareInner)
+		bare := newTestServer(bareInner)
 		defer bare.Close()
 		var onFirst func()
 		if script.Kind == "flush" {
@@ -480,3 +562,7 @@ func c20Stacks(c *Ctx) {
 	})
 	c.Require("stacks_nontrivial", 2)
 }
+
+type brokenWriter struct{}
+
+func (brokenWriter) Write(p []byte) (int, error) { return 0, io.ErrClosedPipe }
